@@ -97,7 +97,7 @@ class NpCalls:
                 fill = const(1)
             if fill is not None:
                 out = out.w(fill=fill, idx=fill.idx, mono=mono_of(fill) if name.startswith('ones') else None)
-                if fill.gname is not None or fill.idx is not None:
+                if fill.idx is not None:
                     out = out.w(idx=fill.idx)
             dt = kwargs.get('dtype')
             if dt is not None and dt.ty == 'builtin':
@@ -180,7 +180,8 @@ class NpCalls:
         out = AV(ty='ndarray', deps=d, store='fresh', fresh=True)
         if arrs:
             j = join_all(arrs)
-            out = out.w(geo=j.geo, idx=j.idx, mono=j.mono, dtype=j.dtype)
+            out = out.w(geo=j.geo, idx=j.idx, mono=j.mono, dtype=j.dtype, at=j.at, maybe_empty=None,
+                        rollwrap=True if any(a.rollwrap for a in arrs) else None)
             if j.geo_conflict:
                 interp.emit('kind_mix', node, kinds=j.geo_conflict, fn=fn)
             if fn in ('vstack', 'stack', 'array'):
@@ -372,7 +373,7 @@ class NpCalls:
     def np_unique(self, interp, st, args, kwargs, node):
         x = as_array(args[0]) if args[0].ty != 'DataFrame' else args[0]
         d = self.deps_of(args, kwargs)
-        u = x.only('geo', 'idx', 'mono', 'dtype', 'colvals', 'cols', 'taint').w(ty='ndarray', deps=d, store='fresh', fresh=True, sorted=True,
+        u = x.only('geo', 'idx', 'at', 'mono', 'dtype', 'colvals', 'cols', 'taint', 'rollwrap').w(ty='ndarray', deps=d, store='fresh', fresh=True, sorted=True,
                                                              unique_of=x, axes=x.axes if 'axis' in kwargs else ('k',),
                                                              maybe_empty=x.maybe_empty, datadep_len=True)
         if x.ty == 'DataFrame' and x.cols:
